@@ -39,6 +39,7 @@ type respSpec struct {
 	ReadOnly    int         `json:"read_only,omitempty"`              // h2/h3 handler: read that many body bytes, answer, return
 	Early103    bool        `json:"early_103,omitempty"`              // h2/h3 handler: a 103 Early Hints block before the final one
 	Trailers    [][2]string `json:"trailers,omitempty"`               // h1 chunked: trailer fields after the last chunk
+	RejectHead  string      `json:"reject_head,omitempty"`            // h3 handler: add this connection-specific response field
 	Fault       string      `json:"fault,omitempty"`                  // bad-chunk | bad-trailer (h1 chunked) | bad-gzip-crc: the body reader delivers data AND an error
 	body        []byte      // entity bytes on the wire
 }
@@ -849,9 +850,7 @@ func runClient(c *req.Client, url string, ex exSpec, id string, cfg *dumpCfg, wc
 		c.SetCommonRetryCount(1).SetCommonRetryFixedInterval(time.Millisecond).
 			SetCommonRetryCondition(func(resp *req.Response, err error) bool { return err == nil && resp.StatusCode == 500 })
 	}
-	if cfg != nil && cfg.Client != nil {
-		c.SetCommonDumpOptions(cfg.Client.build(0, s)).EnableDumpAll()
-	}
+	applyClientHist(c, cfg, s)
 	if ex.Clone {
 		// a clone of a dumping client dumps on its own (own Dumper, started by Clone) to the same
 		// writers; switching the original's dump off afterwards must not silence it
@@ -1408,6 +1407,7 @@ func h1PairsGen(r *hk.Run, rng *hk.Rand, count int, gen func(*hk.Rand) exSpec) {
 			emitExch(r, cfg, coqX, xs, on.Sink, pl, map[string]interface{}{"kind": "h1", "exchange": ex, "dump": cfg}, "h1|"+keyOf(in), nt)
 		}
 		emitReqOps(r, cfg, in)
+		emitClientOps(r, cfg, ex.Clone, in)
 	}
 }
 
